@@ -10,6 +10,9 @@ on the user's model.  Coq re-runs Iface.update_state etc. on the same sequence (
 The oracle reads the property literally: result = from-scratch values of (state inputs overlaid with the
 position) = what a fresh copy of the real model reaches by direct assignment + update() = what a fresh
 interface returns; extract gives back the position; log_prob = model log_prob; nothing is mutated.
+Node values include Python singletons (True, False, 0, 1), distributions have per-observation (vector) or summed
+log-probs (c01's LP encoding), some Calc nodes are a harness subclass that keeps extra state information
+(NodeState.extra; compared by the oracle only).
 Flat cases: dict / dataclass (plain, init=False field, non-idempotent __post_init__) / named tuple.
 JIT cases: array-valued models, eager vs jax.jit vs jax.vmap (tested, not proved).
 """
@@ -38,9 +41,50 @@ NO_KEY = "no_such_key"
 # ---------------------------------------------------------------------------------------------
 # real models
 # ---------------------------------------------------------------------------------------------
+def digest(v):
+    """the extra state information an ExtraCalc node keeps next to its value"""
+    return (int(v) * 31 + 7) % c01.P
+
+
+_EXTRA_CLS = []
+
+
+def extra_calc_class():
+    """a Calc subclass that carries extra information in its state (NodeState.extra, liesel's documented
+    extension point): a digest of the value, computed by update(), saved / loaded through the state property"""
+    if _EXTRA_CLS:
+        return _EXTRA_CLS[0]
+    from liesel.model.nodes import Calc, NodeState
+
+    class ExtraCalc(Calc):
+        def __init__(self, *a, **kw):
+            self._digest = None
+            super().__init__(*a, **kw)
+
+        def update(self):
+            super().update()
+            self._digest = digest(self._value)
+            return self
+
+        @property
+        def state(self):
+            return NodeState(self.value, self.outdated, self._digest)
+
+        @state.setter
+        def state(self, state):
+            self._value = state.value
+            self._outdated = state.outdated
+            self._digest = state.extra
+
+    _EXTRA_CLS.append(ExtraCalc)
+    return ExtraCalc
+
+
 class Real3(c01.Real):
     """c01.Real plus (a) user-supplied log-prob / log-lik / log-prior nodes (spec["user"] = {"prob": item index, ...}),
-    (b) a hand-built family in which a node and a variable share a name (spec["custom"] == "shared")"""
+    (b) Calc items realised by a node subclass with extra state information (spec["extra"] = [item indices]),
+    (c) a hand-built family in which a node and a variable share a name (spec["custom"] == "shared").
+    Node values may be Python singletons (True / False / 0 / 1): a bool is shown as the integer it is."""
 
     def __init__(self, spec, order=None, order_seed=0):
         import logging
@@ -51,23 +95,29 @@ class Real3(c01.Real):
             self._build_shared(spec, order, order_seed)
             return
         user = spec.get("user") or {}
-        if not user:
+        extra = {f"n{i}" for i in spec.get("extra") or []}
+        if not user and not extra:
             super().__init__(spec, order, order_seed)
             return
-        orig = lsl.GraphBuilder
+        orig_gb, orig_calc = lsl.GraphBuilder, lsl.Calc
 
-        class GB(orig):
+        class GB(orig_gb):
             def build_model(gb, copy=False):
                 byname = {n.name: n for n in gb.nodes}
                 for role, idx in user.items():
                     setattr(gb, f"log_{role}_node", byname[f"n{idx}"])
-                return orig.build_model(gb, copy)
+                return orig_gb.build_model(gb, copy)
+
+        def calc_factory(fn, *a, _name="", **kw):
+            cls = extra_calc_class() if _name in extra else orig_calc
+            return cls(fn, *a, _name=_name, **kw)
 
         lsl.GraphBuilder = GB
+        lsl.Calc = calc_factory
         try:
             super().__init__(spec, order, order_seed)
         finally:
-            lsl.GraphBuilder = orig
+            lsl.GraphBuilder, lsl.Calc = orig_gb, orig_calc
 
     def _fs_of(self, name, d):
         if name in self.fsmap:
@@ -78,7 +128,8 @@ class Real3(c01.Real):
 
     def _build_shared(self, spec, order, order_seed):
         """node "x" and variable "x" (value node "x_value"); Calc node "c" and strong variable "c" (value node
-        "c_value"): the key "x" / "c" names the NODE (node name first)"""
+        "c_value"): the key "x" / "c" names the NODE (node name first).  "sw" holds a Python singleton (True, ...),
+        "d" keeps extra state information, the distribution of "w" has a per-observation (vector) log-prob."""
         import liesel.model as lsl
         self.lsl = lsl
         self.spec = spec
@@ -87,6 +138,8 @@ class Real3(c01.Real):
         self.group_fs = {}
         v = spec["vals"]
         f = spec["fs"]
+        dspec = {"per_obs": True, "vec": True, "split": spec.get("split", 7)}
+        self.dist_spec = {"w_log_prob": dspec}
 
         def fn(fs):
             return lambda *a: apply_fs(fs, list(a))
@@ -97,14 +150,16 @@ class Real3(c01.Real):
                     self.vals = list(a)
 
                 def log_prob(self, at):
-                    return apply_fs(fs, self.vals + [at])
+                    t = apply_fs(fs, self.vals + [at])
+                    return c01.LP([t - dspec["split"], dspec["split"]])
             return HDist
 
         x = lsl.Value(v[0], _name="x")
         vx = lsl.Var(v[1], name="x")
-        c = lsl.Calc(fn(f[0]), x, vx, _name="c")
+        sw = lsl.Value(spec.get("switch", 1), _name="sw")
+        c = lsl.Calc(fn(f[0]), x, vx, sw, _name="c")
         vc = lsl.Var(v[2], name="c")
-        d = lsl.Calc(fn(f[1]), vc, c, _name="d")
+        d = extra_calc_class()(fn(f[1]), vc, c, _name="d")
         w = lsl.Var(v[3], lsl.Dist(dist(f[2]), d), name="w")
         w.parameter = True
         e = lsl.Var(lsl.Calc(fn(f[3]), w, x), name="e")
@@ -114,17 +169,28 @@ class Real3(c01.Real):
         self.model = gb.build_model()
         self._extract(order, order_seed)
 
+    def canon(self, name, v):
+        """canonical integer of what node `name` shows (in the model or in a model state)"""
+        d = getattr(self, "dist_spec", {}).get(name)
+        if d is not None:
+            v = c01.canon_lp(v, d)
+        if isinstance(v, bool):
+            v = int(v)
+        return v
+
     def canon_value(self, k):
-        if self.spec.get("custom"):
-            return self.nodes[k].value
-        return super().canon_value(k)
+        v = self.nodes[k].value if self.spec.get("custom") else super().canon_value(k)
+        return self.canon(self.order[k], v)
+
+
+SINGLETONS = [True, True, False, 0, 1]
 
 
 def shared_spec(rnd):
     def fs(n):
         return ["aff", rnd.randint(0, 999), [rnd.randint(1, 9) for _ in range(n)]]
     return {"custom": "shared", "items": [], "vals": [rnd.randint(-50, 50) for _ in range(4)],
-            "fs": [fs(2), fs(2), fs(2), fs(2)]}
+            "fs": [fs(3), fs(2), fs(2), fs(2)], "switch": rnd.choice(SINGLETONS), "split": rnd.randint(2, 9)}
 
 
 def key_table(real):
@@ -149,19 +215,25 @@ def view_of(real, st):
     for name in real.order:
         ns = st[name]
         v = ns.value
+        if hasattr(v, "args") and hasattr(v, "kwargs"):
+            raise Anomaly(f"state of transient node {name} carries a value")
+        v = real.canon(name, v)
         if v is not None and (not isinstance(v, int) or isinstance(v, bool)):
-            if hasattr(v, "args") and hasattr(v, "kwargs"):
-                raise Anomaly(f"state of transient node {name} carries a value")
             raise Anomaly(f"state of node {name} shows a non-integer value {v!r}")
         fl = ns.outdated
         if not isinstance(fl, bool):
             raise Anomaly(f"state of node {name} shows a non-bool flag {fl!r}")
-        out.append([v, fl])
+        out.append([None if v is None else int(v), fl])
     return out
 
 
+def extras_of(real, st):
+    """NodeState.extra of every node, in graph order (None for the node classes shipped with liesel)"""
+    return [getattr(st[name], "extra", None) for name in real.order]
+
+
 def freeze(st):
-    return tuple(sorted((k, repr(v.value), repr(v.outdated)) for k, v in st.items()))
+    return tuple(sorted((k, repr(v.value), repr(v.outdated), repr(getattr(v, "extra", None))) for k, v in st.items()))
 
 
 def make_iface(kind, model):
@@ -199,6 +271,9 @@ def drive(spec, pre, steps, order=None, order_seed=0, iface_kind="liesel"):
     state0 = m.state
     pool = [state0]
     base["state0"] = view_of(real, state0)
+    base["extra0"] = extras_of(real, state0)
+    ecls = extra_calc_class()
+    base["extra_nodes"] = [k for k, nd in enumerate(real.nodes) if isinstance(nd, ecls)]
     direct = None            # a fresh copy of the real model for direct assignment
     out_steps = []
     obs = []
@@ -232,21 +307,24 @@ def drive(spec, pre, steps, order=None, order_seed=0, iface_kind="liesel"):
                 ob["exc"] = type(ex).__name__
             if r is not None:
                 ob["view"] = view_of(real, r)
+                ob["extra"] = extras_of(real, r)
                 ob["new_object"] = r is not src
                 pool.append(r)
                 # put-get and log-prob on the result
                 try:
                     xp = iface.extract_position(list(pd), r)
-                    ob["xp"] = [[k, xp[names[k]]] for k, _ in pos]
+                    ob["xp"] = [[k, int(xp[names[k]]) if isinstance(xp[names[k]], bool) else xp[names[k]]] for k, _ in pos]
                 except Exception as ex:
                     ob["xp"] = "raised " + type(ex).__name__
-                ob["lp"] = iface.log_prob(r)
+                ob["lp"] = real.canon("_model_log_prob", iface.log_prob(r))
                 srcv = view_of(real, src)
                 if not any(f for _, f in srcv):
                     # (1) a fresh interface (no earlier calls) on the same arguments
                     fresh = make_iface(iface_kind, m)
                     try:
-                        ob["fresh"] = view_of(real, fresh.update_state(pd, src))
+                        fr = fresh.update_state(pd, src)
+                        ob["fresh"] = view_of(real, fr)
+                        ob["fresh_extra"] = extras_of(real, fr)
                     except Exception as ex:
                         ob["fresh"] = "raised " + type(ex).__name__
                     # (2) direct assignment on a fresh copy of the real model, then update()
@@ -265,6 +343,7 @@ def drive(spec, pre, steps, order=None, order_seed=0, iface_kind="liesel"):
                                 dm.vars[key].value = v
                         dm.update()
                         ob["direct"] = view_of(direct, dm.state)
+                        ob["direct_extra"] = extras_of(direct, dm.state)
                         ob["direct_lp"] = dm.log_prob
                     except Exception as ex:
                         ob["direct"] = "raised " + repr(ex)
@@ -276,7 +355,8 @@ def drive(spec, pre, steps, order=None, order_seed=0, iface_kind="liesel"):
             try:
                 p = iface.extract_position([names[k] for k in st[1]], pool[si])
                 ob["raised"] = False
-                ob["vals"] = [p[names[k]] for k in st[1]]
+                ob["vals"] = [real.canon(names[k] if names[k] in m.nodes else (m.vars[names[k]].value_node.name if names[k] in m.vars else ""),
+                                         p[names[k]]) for k in st[1]]
                 if any(v is not None and (not isinstance(v, int) or isinstance(v, bool)) for v in ob["vals"]):
                     raise Anomaly(f"extract_position returns non-integer values {ob['vals']!r}")
             except Anomaly:
@@ -288,7 +368,7 @@ def drive(spec, pre, steps, order=None, order_seed=0, iface_kind="liesel"):
         elif st[0] == "lp":
             si = min(st[1], len(pool) - 1)
             st = ["lp", si]
-            v = iface.log_prob(pool[si])
+            v = real.canon("_model_log_prob", iface.log_prob(pool[si]))
             if v is not None and (not isinstance(v, int) or isinstance(v, bool)):
                 raise Anomaly(f"log_prob returns {v!r}")
             ob["v"] = v
@@ -301,6 +381,7 @@ def drive(spec, pre, steps, order=None, order_seed=0, iface_kind="liesel"):
             pool.append(s)
             ob["raised"] = False
             ob["view"] = view_of(real, s)
+            ob["extra"] = extras_of(real, s)
         else:
             raise ValueError(st)
         # non-mutation of the caller's states and of the user's model (test, DESIGN 4.5)
@@ -331,7 +412,8 @@ def drive_safe(spec, pre, steps, order, kind="liesel"):
 # step generator
 # ---------------------------------------------------------------------------------------------
 SCENARIOS = ["same_state_twice", "chain", "by_var_name", "alias", "errors", "empty_pos", "auto_off_internal",
-             "outdated_state", "user_lp", "interleaved", "getput", "shared_name", "goose_alias", "random"]
+             "outdated_state", "user_lp", "interleaved", "getput", "shared_name", "goose_alias", "singleton_values",
+             "extra_state", "random"]
 
 
 class Info:
@@ -342,6 +424,8 @@ class Info:
         self.kinds = real.kinds
         self.order = real.order
         self.pg = PG(real.kinds, real.ins, real.fs)
+        ecls = extra_calc_class()
+        self.extra_nodes = [k for k, nd in enumerate(real.nodes) if isinstance(nd, ecls)]
         self.var_of_pos = {}          # value node position -> variable name
         for vn, v in real.model.vars.items():
             self.var_of_pos.setdefault(real.pos[v.value_node.name], vn)
@@ -363,6 +447,8 @@ def gen_steps(rnd, info: Info, scenario):
     npool = [1]
 
     def val():
+        if rnd.random() < 0.08:
+            return rnd.choice(SINGLETONS)       # Python singletons as assigned values
         return rnd.randint(-99, 99)
 
     def key_for(p, prefer_var=0.4):
@@ -477,6 +563,23 @@ def gen_steps(rnd, info: Info, scenario):
         if rnd.random() < 0.5:
             pre += [["auto", False]]
         upd(rand_pos(1, 2), 0)
+    elif scenario == "extra_state" and info.extra_nodes:
+        # a node with extra state information: first recomputed by a call, then calls that do not touch its inputs
+        e = rnd.choice(info.extra_nodes)
+        A = [p for p in V if p in info.pg.anc[e]]
+        B = [p for p in V if p not in info.pg.anc[e]]
+
+        def pos_in(ps, k=1):
+            ps = rnd.sample(ps, min(len(ps), k))
+            return [[key_for(p), val()] for p in ps]
+        if B and rnd.random() < 0.5:
+            upd(pos_in(B), 0)                       # the node is not recomputed: its extra comes from the given state
+        if A:
+            s1 = upd(pos_in(A, rnd.randint(1, 2)), 0)
+            if B:
+                upd(pos_in(B), 0)                   # must not show the extra computed by the previous call
+                upd(pos_in(B), s1)                  # chained: extra of s1
+            upd([], rnd.choice([0, s1]))
     else:      # user_lp, shared_name, random: differ in the model, not in the steps
         pass
     # random tail
@@ -503,7 +606,19 @@ def make_case(rnd, quick, scenario, flavour):
             spec = shared_spec(rnd)
         else:
             nitems = rnd.randint(2, 7) if quick else rnd.choice([rnd.randint(2, 8), rnd.randint(6, 14)])
-            spec = c01.gen_spec(rnd, nitems, flavour)
+            spec = c01.gen_spec(rnd, nitems, flavour, per_obs=True)   # per-observation (vector) and summed log-probs
+            # Python singletons as node values (a switch stored in a Value / Data node or a strong variable)
+            holders = [it for it in spec["items"] if it["k"] == "value" or (it["k"] == "var" and not it["weak"])]
+            if holders and (scenario == "singleton_values" or rnd.random() < 0.3):
+                chosen = rnd.sample(holders, min(len(holders), rnd.randint(1, 2)))
+                for j, it in enumerate(chosen):
+                    it["v"] = True if (j == 0 and scenario == "singleton_values") else rnd.choice(SINGLETONS)
+            # Calc nodes that keep extra state information (NodeState.extra)
+            calcs = [i for i, it in enumerate(spec["items"]) if it["k"] == "calc"]
+            if scenario == "extra_state" and not calcs:
+                continue
+            if calcs and (scenario == "extra_state" or rnd.random() < 0.2):
+                spec["extra"] = sorted(rnd.sample(calcs, min(len(calcs), rnd.randint(1, 2))))
             if scenario == "user_lp" or (scenario == "random" and rnd.random() < 0.2):
                 cand = [i for i, it in enumerate(spec["items"]) if it["k"] in ("calc", "tcalc", "value")]
                 if not cand:
@@ -555,8 +670,13 @@ def check_graph(c):
         return {order[k]: v for k, (v, _) in enumerate(view) if kinds[k] != "T"}
 
     pool = [c["state0"]]
+    epool = [c.get("extra0")]
     if c.get("create_mut"):
         return (-1, c["create_mut"])
+
+    def extras_msg(call, got, want, whose):
+        k = next(k for k in range(n) if got[k] != want[k])
+        return (f"{call}: the returned state carries extra state information {got[k]} for node {order[k]}; {whose} {want[k]}")
     for si, (st, ob) in enumerate(zip(c["steps"], c["obs"])):
         where = f"step {si}"
         if ob.get("mut_state"):
@@ -571,6 +691,7 @@ def check_graph(c):
                 continue
             view = ob["view"]
             pool.append(view)
+            epool.append(ob.get("extra"))
             if not good(src):
                 continue          # documented precondition: the given state must be up to date
             for k in range(n):
@@ -601,6 +722,17 @@ def check_graph(c):
             if fr is not None and fr != view:
                 return (si, f"{call}: the result depends on earlier calls - a freshly created interface returns "
                             f"{fr if isinstance(fr, str) else show(fr)}, this one {show(view)}")
+            # extra state information (NodeState.extra of node subclasses): oracle only, not in the Coq model
+            ex = ob.get("extra")
+            if ex is not None:
+                if ob.get("direct_extra") is not None and ex != ob["direct_extra"]:
+                    return (si, extras_msg(call, ex, ob["direct_extra"], "a fresh copy of the model after direct assignment + update() has"))
+                if ob.get("fresh_extra") is not None and ex != ob["fresh_extra"]:
+                    return (si, extras_msg(call, ex, ob["fresh_extra"], "the result depends on earlier calls - a freshly created interface returns"))
+                for k in c.get("extra_nodes", []):
+                    if ex[k] != digest(view[k][0]):
+                        return (si, f"{call}: the returned state carries extra state information {ex[k]} for node {order[k]} "
+                                    f"(value {view[k][0]}); the model itself has {digest(view[k][0])}")
             # put-get
             last = {}
             for r, (_, v) in zip(res, pos):
@@ -611,10 +743,11 @@ def check_graph(c):
             if ob.get("lp") is None or ob["lp"] != ob.get("direct_lp", ob["lp"]) or ob["lp"] != sc[c["lp"]]:
                 return (si, f"{call}: interface log_prob of the result is {ob.get('lp')}, the model's log-probability at these "
                             f"values is {ob.get('direct_lp', sc[c['lp']])}")
-            if ob.get("reput") and view != src:
+            if ob.get("reput") and (view != src or (ex is not None and epool[st[2]] is not None and ex != epool[st[2]])):
                 return (si, f"{call}: putting back the extracted position changed the state")
         elif st[0] == "save":
             pool.append(ob["view"])
+            epool.append(ob.get("extra"))
         elif st[0] == "lp":
             src = pool[st[1]]
             if good(src) and ob["v"] is None:
@@ -792,15 +925,32 @@ def check_flat(c):
 # ---------------------------------------------------------------------------------------------
 # eager == jit == vmap on array-valued models (tested, not proved; DESIGN 4.4)
 # ---------------------------------------------------------------------------------------------
-def jit_model(variant, vals):
+SWITCHES = {"True": True, "False": False, "1": 1, "0": 0, "str": "on", "empty_tuple": (), "None": None}
+
+
+def jit_model(variant, vals, switch=None):
     import jax.numpy as jnp
     import liesel.model as lsl
     import tensorflow_probability.substrates.jax.distributions as tfd
     b0 = lsl.param(vals[0], lsl.Dist(tfd.Normal, loc=0.0, scale=10.0), name="b0")
     b1 = lsl.param(vals[1], lsl.Dist(tfd.Normal, loc=0.0, scale=10.0), name="b1")
     x = lsl.obs(jnp.linspace(-1.0, 1.0, 6), name="x")
-    mu = lsl.Var(lsl.Calc(lambda b0, b1, x: b0 + b1 * x, b0, b1, x), name="mu")
-    if variant == 0:
+    if variant == 3:
+        # a plain Python switch (a singleton object: True, 1, "on", (), None ...) stored in a model variable selects
+        # whether an offset enters the predictor; per-observation log-likelihood vector
+        sw = lsl.Var(SWITCHES[switch], name="use_offset")
+
+        def predictor(b0, b1, x, flag):
+            mu = b0 + b1 * x
+            if flag is None or isinstance(flag, tuple):
+                return mu
+            if isinstance(flag, str):
+                return mu + (0.5 if flag == "on" else 0.0)
+            return mu + jnp.where(flag, 0.5, 0.0)
+        mu = lsl.Var(lsl.Calc(predictor, b0, b1, x, sw), name="mu")
+    else:
+        mu = lsl.Var(lsl.Calc(lambda b0, b1, x: b0 + b1 * x, b0, b1, x), name="mu")
+    if variant in (0, 3):
         sigma = lsl.param(vals[2], name="sigma")
     else:
         ls = lsl.param(vals[2], lsl.Dist(tfd.Normal, loc=0.0, scale=3.0), name="log_sigma")
@@ -813,63 +963,86 @@ def jit_model(variant, vals):
     return lsl.GraphBuilder().add(*roots).build_model()
 
 
-def jit_case(variant, vals, positions):
+def jit_case(variant, vals, positions, switch=None):
     import jax
     import jax.numpy as jnp
     import numpy as np
     import liesel.goose as gs
-    model = jit_model(variant, vals)
-    before = {k: (np.asarray(v.value).tolist() if v.value is not None else None, bool(v.outdated)) for k, v in model.state.items()}
+
+    def plain(v):
+        if v is None or isinstance(v, (str, tuple)):
+            return v
+        return np.asarray(v).tolist()
+
+    def num(stt):
+        return {k: plain(v.value) for k, v in stt.items() if v.value is not None}
+
+    def flags(stt):
+        return {k: bool(np.asarray(v.outdated)) for k, v in stt.items()}
+
+    def same(a, b):
+        if isinstance(a, (str, tuple)) or isinstance(b, (str, tuple)):
+            return a == b
+        a, b = np.asarray(a, dtype=float), np.asarray(b, dtype=float)
+        return a.shape == b.shape and np.allclose(a, b, rtol=2e-5, atol=1e-5)        # shapes are part of the state
+
+    def diff(a, b):
+        return sorted(k for k in set(a) | set(b) if k not in a or k not in b or not same(a[k], b[k]))
+
+    def shapes(a, ks):
+        return {k: (list(np.shape(a[k])) if k in a and not isinstance(a[k], (str, tuple)) else "?") for k in ks}
+
+    model = jit_model(variant, vals, switch)
+    before = (num(model.state), flags(model.state), model.auto_update)
     iface = gs.LieselInterface(model)
     st = model.state
     keys = list(positions[0])
+    traced = switch != "str"            # a str is not a valid JAX type (neither as argument nor as result): eager only
     eager = [iface.update_state({k: jnp.float32(v) for k, v in p.items()}, st) for p in positions]
-    jitted = jax.jit(iface.update_state)
-    jres = [jitted({k: jnp.float32(v) for k, v in p.items()}, st) for p in positions]
-    batch = {k: jnp.array([p[k] for p in positions], dtype=jnp.float32) for k in keys}
-    vres = jax.vmap(lambda p: iface.update_state(p, st))(batch)
+    if traced:
+        jitted = jax.jit(iface.update_state)
+        jres = [jitted({k: jnp.float32(v) for k, v in p.items()}, st) for p in positions]
+        batch = {k: jnp.array([p[k] for p in positions], dtype=jnp.float32) for k in keys}
+        vres = jax.vmap(lambda p: iface.update_state(p, st))(batch)
+    else:
+        jres, vres = eager, None
     again = [iface.update_state({k: jnp.float32(v) for k, v in p.items()}, st) for p in positions]   # eager after tracing
-    after = {k: (np.asarray(v.value).tolist() if v.value is not None else None, bool(v.outdated)) for k, v in model.state.items()}
+    after = (num(model.state), flags(model.state), model.auto_update)
     # direct assignment on an independent model
-    direct = jit_model(variant, vals)
+    direct = jit_model(variant, vals, switch)
     dres = []
     for p in positions:
         direct.auto_update = False
         for k, v in p.items():
             direct.vars[k].value = jnp.float32(v)
         direct.update()
-        dres.append({k: np.asarray(v.value).tolist() for k, v in direct.state.items() if v.value is not None})
+        dres.append(num(direct.state))
 
-    def num(stt):
-        return {k: np.asarray(v.value).tolist() for k, v in stt.items() if v.value is not None}
-
-    def flags(stt):
-        return {k: bool(v.outdated) for k, v in stt.items()}
-
-    out = {"kind": "jit", "variant": variant, "vals": vals, "positions": positions, "scenario": f"jit.variant{variant}",
-           "model_unchanged": before == after, "problems": []}
-
-    def close(a, b):
-        return set(a) == set(b) and all(np.allclose(np.asarray(a[k], dtype=float), np.asarray(b[k], dtype=float), rtol=2e-5, atol=1e-5) for k in a)
-
+    out = {"kind": "jit", "variant": variant, "switch": switch, "vals": vals, "positions": positions,
+           "scenario": f"jit.variant{variant}" + (f".switch_{switch}" if switch else ""),
+           "model_unchanged": not diff(before[0], after[0]) and before[1:] == after[1:], "problems": []}
     for i, p in enumerate(positions):
         e = num(eager[i])
         if any(flags(eager[i]).values()):
             out["problems"].append(f"position {p}: eager result has outdated nodes")
-        if not close(e, num(jres[i])):
-            out["problems"].append(f"position {p}: jax.jit(update_state) differs from the eager result")
-        if any(bool(np.asarray(f)) for f in flags(jres[i]).values()):
+        bad = diff(e, dres[i])
+        if bad:
+            out["problems"].append(f"position {p}: update_state differs from direct assignment + update() on nodes {bad} "
+                                   f"(shapes {shapes(e, bad)} vs {shapes(dres[i], bad)} in the model itself)")
+        if diff(e, num(jres[i])):
+            out["problems"].append(f"position {p}: jax.jit(update_state) differs from the eager result on {diff(e, num(jres[i]))}")
+        if any(flags(jres[i]).values()):
             out["problems"].append(f"position {p}: jitted result has outdated nodes")
-        v = {k: np.asarray(s.value)[i].tolist() for k, s in vres.items() if s.value is not None}
-        if not close(e, v):
-            out["problems"].append(f"position {p}: jax.vmap(update_state) differs from the eager result")
-        if not close(e, num(again[i])):
+        v = e if vres is None else {k: (np.asarray(s.value)[i].tolist() if not isinstance(s.value, (str, tuple)) else s.value)
+                                    for k, s in vres.items() if s.value is not None}
+        vb = [k for k in diff(e, v) if not (k in e and k in v and not isinstance(e[k], (str, tuple))
+                                            and np.allclose(np.asarray(e[k], dtype=float), np.asarray(v[k], dtype=float), rtol=2e-5, atol=1e-5))]
+        if vb:      # vmap broadcasts the entries that do not depend on the position: values only
+            out["problems"].append(f"position {p}: jax.vmap(update_state) differs from the eager result on {vb}")
+        if diff(e, num(again[i])):
             out["problems"].append(f"position {p}: eager call after tracing differs from the eager call before")
-        if not close(e, dres[i]):
-            bad = [k for k in e if k not in dres[i] or not np.allclose(np.asarray(e[k], dtype=float), np.asarray(dres[i][k], dtype=float), rtol=2e-5, atol=1e-5)]
-            out["problems"].append(f"position {p}: update_state differs from direct assignment + update() on nodes {bad}")
         lp = iface.log_prob(eager[i])
-        if lp is None or not np.allclose(float(lp), float(dres[i]["_model_log_prob"]), rtol=2e-5, atol=1e-5):
+        if lp is None or not np.allclose(float(lp), float(np.sum(dres[i]["_model_log_prob"])), rtol=2e-5, atol=1e-5):
             out["problems"].append(f"position {p}: interface log_prob {lp} differs from model log_prob {dres[i]['_model_log_prob']}")
         xp = iface.extract_position(keys, eager[i])
         if any(not np.allclose(float(xp[k]), np.float32(p[k])) for k in keys):
@@ -879,20 +1052,28 @@ def jit_case(variant, vals, positions):
 
 def gen_jit(rnd, quick):
     cases = []
-    for variant in ([0, 2] if quick else [0, 1, 2]):
+    others = [k for k in SWITCHES if k != "True"]
+    plan = [(0, None), (2, None), (3, "True"), (3, rnd.choice(others))] if quick else \
+           [(0, None), (1, None), (2, None)] + [(3, k) for k in SWITCHES]
+    for variant, switch in plan:
         vals = [rnd.randint(-8, 8) / 4 for _ in range(2)] + [rnd.randint(1, 8) / 4] + [rnd.randint(-12, 12) / 4 for _ in range(6)]
         keys = ["b0", "b1"] if variant != 1 else ["b0", "log_sigma"]
-        positions = [{k: rnd.randint(-8, 8) / 4 for k in keys} for _ in range(3)]
-        cases.append(jit_case_safe(variant, vals, positions))
+        if variant == 3 and rnd.random() < 0.5:
+            keys = ["b1", "sigma"]
+        positions = [{k: (rnd.randint(1, 8) / 4 if k == "sigma" else rnd.randint(-8, 8) / 4) for k in keys} for _ in range(3)]
+        cases.append(jit_case_safe(variant, vals, positions, switch))
     return cases
 
 
-def jit_case_safe(variant, vals, positions):
+def jit_case_safe(variant, vals, positions, switch=None):
     try:
-        return jit_case(variant, vals, positions)
+        return jit_case(variant, vals, positions, switch)
     except Exception as ex:
-        return {"kind": "jit", "variant": variant, "vals": vals, "positions": positions, "scenario": f"jit.variant{variant}",
-                "model_unchanged": True, "problems": [f"eager / jit / vmap calls on the array-valued model raise {ex!r}"]}
+        import traceback
+        return {"kind": "jit", "variant": variant, "switch": switch, "vals": vals, "positions": positions,
+                "scenario": f"jit.variant{variant}" + (f".switch_{switch}" if switch else ""), "model_unchanged": True,
+                "problems": [f"eager / jit / vmap calls on the array-valued model raise {ex!r} at "
+                             + traceback.format_exc().strip().splitlines()[-3].strip()]}
 
 
 # ---------------------------------------------------------------------------------------------
@@ -959,6 +1140,18 @@ def generate(ctx):
         ctx.hist("nodes." + ("<=8" if n <= 8 else "9-13" if n <= 13 else "14-24" if n <= 24 else ">=25"))
         if c["spec"].get("user"):
             ctx.hist("model.user_log_prob_nodes")
+        if c.get("extra_nodes"):
+            ctx.hist("model.node_with_extra_state")
+        items = c["spec"].get("items") or []
+        if any(it.get("v") is True for it in items) or c["spec"].get("switch") is True:
+            ctx.hist("model.node_value_is_True")
+        if any(isinstance(it.get("v"), bool) or it.get("v") in (0, 1) for it in items):
+            ctx.hist("model.node_value_is_singleton(bool/0/1)")
+        dists = [it["dist"] for it in items if it.get("dist")] + [it for it in items if it["k"] in ("dist", "tdist")]
+        if any(d.get("vec") and d.get("per_obs", True) for d in dists) or c["spec"].get("custom"):
+            ctx.hist("model.per_obs_vector_log_prob")
+        if any(d.get("vec") and not d.get("per_obs", True) for d in dists):
+            ctx.hist("model.summed_vector_log_prob")
         if c["pre"] and ["auto", False] in c["pre"]:
             ctx.hist("model.auto_update_off_when_interface_created")
         seen_src = {}
@@ -1005,6 +1198,12 @@ def generate(ctx):
         "DictInterface / DataclassInterface / NamedTupleInterface against the overlay model on dict, dataclass (plain, init=False "
         "field, non-idempotent __post_init__) and named-tuple states; object identity / type preservation",
         "the deprecated alias lsl.GooseModel is driven like gs.LieselInterface (stratum goose_alias)",
+        "extra state information (NodeState.extra of a harness Calc subclass that overrides the state property) is not in the Coq "
+        "model: the extras of every returned state are compared by the oracle with direct assignment on a fresh copy of the real "
+        "model, with a freshly created interface and with the digest of the node's value",
+        "node values that are Python singletons (True / False / 0 / 1 in the integer graphs, additionally 'on' / () / None in the "
+        "array-valued family) and per-observation (vector) vs summed log-probs: a bool is compared as the integer it is, a "
+        "per-observation vector through c01.canon_lp (wrong shape = a value no node function produces); shapes in the array-valued family",
     ]
     ctx.assume += [
         "wf g: positions are a topological order of the node graph, Value nodes have no inputs (checked per case by wfb)",
@@ -1253,8 +1452,8 @@ def replay(rp) -> int:
             cc = flat_case(c["flat"], c["fields"], c["values"], c["op"])
             print({k: cc.get(k) for k in ("flat", "state", "op", "after", "vals", "xp", "exc", "input_after")})
         elif kind == "jit":
-            cc = jit_case_safe(c["variant"], c["vals"], c["positions"])
-            print({k: cc.get(k) for k in ("variant", "vals", "positions", "problems", "model_unchanged")})
+            cc = jit_case_safe(c["variant"], c["vals"], c["positions"], c.get("switch"))
+            print({k: cc.get(k) for k in ("variant", "switch", "vals", "positions", "problems", "model_unchanged")})
         else:
             cc = drive(c["spec"], c["pre"], c["steps"], c.get("order"), iface_kind=c.get("iface_kind", "liesel"))
             print("nodes (position: name kind inputs):")
